@@ -375,7 +375,9 @@ def monitorOp (prop : String) (seen : Seen) (v : OpView) (next : Option OpView) 
             else none
   | "C13" =>
     let conn := st.getD 1 "0" = "1"
-    if op.name = "disc" then
+    -- a 421 among the replies a call returned (greeting, completion reply, reply to ABOR, ...): not connected afterwards
+    if returned && ((retReplies ret).getD []).any (fun r => r.startsWith "421:") && conn then some "connected-after-421"
+    else if op.name = "disc" then
       (if returned && conn then some "connected-after-disconnect"
        else if op.args.getD 0 "" != "1" && !writes.isEmpty then some "nongraceful-disconnect-sent-a-command"
        else if op.args.getD 0 "" != "1" && conn then some "nongraceful-disconnect-left-connection"
